@@ -1,4 +1,18 @@
 import SqlVerif.Lemmas.PrattLemmas
+/-!
+Fuel lemmas for the Pratt model (`Model/Pratt.lean`), used by `Props/C02Parser.lean`.
+
+* Part 1 — progress: the head functions consume at least one token (`prefixHead_len`,
+  `infixHead_len`), hence `parsePrefix`, `parseInfix`, `parseSubexpr`, `parseItems` return a strictly
+  shorter rest and `loop` a rest that is not longer.
+* Part 2 — no function of the fragment *produces* `Err.fuel` except the fuel match itself
+  (`*_ne_fuel`), and `nofuel_all`: with fuel `2 n + 2` (`parseSubexpr`, `parseInfix`), `2 n + 1`
+  (`parsePrefix`), `2 n + 3` (`loop`, `parseItems`) for `n` remaining tokens no run answers `fuel`:
+  every edge of the call graph either consumes a token or goes to a function of smaller rank.
+* Part 3 — `fuel_mono_all`: a run under fuel `f` ran out of fuel or is the run under any `g ≥ f`.
+* Part 4 — call counting: `costSubexpr` … count the calls of the five functions along the model's
+  own run; `cost_all`: `≤ 4 n + 2` calls, amortised `< 4` per consumed token.
+-/
 namespace SqlVerif.Pratt
 
 def PrefixPlan.rest : PrefixPlan → List Tok
@@ -67,9 +81,6 @@ theorem escapeTail_len (c : Cfg) (ts : List Tok) (o : Option (List Tok × List T
   have := escapeTail_yield c ts esc rest h
   rw [this]; simp
 
-end SqlVerif.Pratt
-
-namespace SqlVerif.Pratt
 
 theorem subexpr_le {c : Cfg} {f d p : Nat} {ts : List Tok} {e : Expr} {rest : List Tok}
     (h : parseSubexpr c f d p ts = .ok (e, rest)) : rest.length ≤ ts.length := by
@@ -202,8 +213,6 @@ theorem subexpr_lt {c : Cfg} {f d p : Nat} {ts : List Tok} {e : Expr} {rest : Li
         have := loop_le h
         omega
 
-end SqlVerif.Pratt
-namespace SqlVerif.Pratt
 
 @[simp] theorem expected_ne_fuel (w : String) (t : Option Tok) : expected w t ≠ .fuel := by
   unfold expected; split <;> simp
@@ -251,8 +260,6 @@ theorem escapeTail_ne_fuel (c : Cfg) (ts : List Tok) : escapeTail c ts ≠ .erro
   repeat' split
   all_goals (simp; done)
 
-end SqlVerif.Pratt
-namespace SqlVerif.Pratt
 
 theorem nofuel_all (c : Cfg) (f : Nat) :
     (∀ d p ts, 2 * ts.length + 2 ≤ f → parseSubexpr c f d p ts ≠ .error .fuel) ∧
@@ -360,8 +367,6 @@ theorem nofuel_all (c : Cfg) (f : Nat) :
             · rename_i er ht; intro h; simp at h; subst h; exact ihT _ _ (by omega) ht
             · simp
         · simp
-end SqlVerif.Pratt
-namespace SqlVerif.Pratt
 
 /-- "ran out of fuel, or is the same outcome" -/
 def FuelRel {α : Type} (x y : Except Err α) : Prop := x = .error .fuel ∨ x = y
@@ -502,8 +507,6 @@ theorem fuel_mono_all (c : Cfg) (f : Nat) : ∀ g, f ≤ g →
               · right; rw [h2]
           · right; rfl
 
-end SqlVerif.Pratt
-namespace SqlVerif.Pratt
 
 /-- the `IN ()` test of `parse_in` -/
 def inlEmpty (c : Cfg) (rest : List Tok) : Bool :=
